@@ -319,16 +319,18 @@ Proof.
   - destruct (top_code_empty _).
     { inversion H; subst. split.
       - eapply keep_trans; [exact K3|].
-        apply (keep_trans _ _ (upd_top c3 (fun f0 => set_pos f0 0))); [same_vals|apply keep_clear_values; [auto with inv|rewrite top_base_upd_top by reflexivity; lia]].
+        apply (keep_trans _ _ (upd_top c3 (fun f0 => set_scope (set_pos f0 0) ""))); [same_vals|apply keep_clear_values; [auto with inv|rewrite top_base_upd_top by reflexivity; lia]].
       - rewrite top_base_clear_values, top_base_upd_top by reflexivity. exact T3. }
     destruct (IH _ _ _ _ _ H R2) as [K T]; [auto with inv| rewrite top_base_clear_values, top_base_upd_top by reflexivity; lia |].
     rewrite top_base_clear_values, top_base_upd_top in T by reflexivity.
     split; [|congruence].
     eapply keep_trans; [exact K3|]. eapply keep_trans; [|exact K].
-    apply (keep_trans _ _ (upd_top c3 (fun f0 => set_pos f0 0))); [same_vals|apply keep_clear_values; [auto with inv|rewrite top_base_upd_top by reflexivity; lia]].
+    apply (keep_trans _ _ (upd_top c3 (fun f0 => set_scope (set_pos f0 0) ""))); [same_vals|apply keep_clear_values; [auto with inv|rewrite top_base_upd_top by reflexivity; lia]].
   - inversion H; subst. split; [eapply keep_trans; [exact K3|same_vals]|rewrite top_base_upd_top by reflexivity; exact T3].
-  - destruct (IH _ _ _ _ _ H R2) as [K T]; [auto with inv| rewrite top_base_upd_top by reflexivity; lia |].
-    rewrite top_base_upd_top in T by reflexivity.
+  - assert (RB : forall f0, f_base (set_pos (set_code (match b' with BWhile _ WCond _ _ => set_scope f0 "" | _ => f0 end) c0) 0) = f_base f0)
+      by (intros f0; destruct b' as [|? [|] ? ?| | | | | | | |]; reflexivity).
+    destruct (IH _ _ _ _ _ H R2) as [K T]; [apply inv_upd_top; [exact RB|exact I3]| rewrite top_base_upd_top by exact RB; lia |].
+    rewrite top_base_upd_top in T by exact RB.
     split; [|congruence]. eapply keep_trans; [exact K3|].
     match type of K with keep _ ?x _ => apply (keep_trans _ _ x); [same_vals|exact K] end.
   - inversion H; subst; auto.
